@@ -190,6 +190,10 @@ def add_missing_imports(source: str) -> str:
         str: Source code with added imports
     """
     undefined_variables = tracing.get_undefined_variables(source)
+    # Names that come from a starred import are not undefined
+    undefined_variables = {
+        name for name in undefined_variables if not tracing.trace_origin(name, source)
+    }
     if undefined_variables:
         return _fix_undefined_variables(source, undefined_variables)
 
